@@ -18,6 +18,7 @@
 #include "EbDecNbr.h"
 #include "EbUtility.h"
 #include "EbDecCdef.h"
+#include "EbVerifHooks.h"
 
 /*Compute's whether 8x8 block is skip or not skip block*/
 static INLINE int32_t dec_is_8x8_block_skip(BlockModeInfo *mbmi) {
@@ -524,6 +525,7 @@ void svt_cdef_sb_row_mt(EbDecHandle *dec_handle, int32_t *mi_wide_l2, int32_t *m
                 nsync = 0;
             while (*cdef_completed_in_prev_row < (sb_fbc + nsync))
                 ;
+            SVT_VERIF_HB_ACQUIRE(cdef_completed_in_prev_row);
             //Sleep(5); /* ToDo : Change */
         }
         /*Curr multi thread implementation of cdef goes through every SB SIZE row*/
@@ -583,6 +585,7 @@ void svt_cdef_sb_row_mt(EbDecHandle *dec_handle, int32_t *mi_wide_l2, int32_t *m
                 dec_mt_frame_data->cdef_linebuf_stride);
         }
         /* Update Top-Right Sync*/
+        SVT_VERIF_HB_RELEASE(cdef_completed_in_row);
         *cdef_completed_in_row = sb_fbc;
     }
 }
